@@ -160,6 +160,17 @@ func mustFollow(r *core.Run, id, fnName, what string, triggers []guard.Atom, res
 	}
 	ck := &guard.Checker{P: r.P, Fn: fn, Res: r.Resolver(fn)}
 	respB := blocksCalling(r, fn, respCalls...)
+	// a call of a helper outside the rule vocabulary counts as the response when every path through the helper
+	// passes a response call or a response condition (the extracted "do X unless already Y" block)
+	for _, b := range fn.Blocks {
+		for _, ins := range b.Instrs {
+			if c, ok := ins.(ssa.CallInstruction); ok {
+				if h := c.Common().StaticCallee(); h != nil && r.P.Transparent(h) && helperResponds(r, fn, c, h, respCalls, respAtoms, 0) {
+					respB[b] = true
+				}
+			}
+		}
+	}
 	respE := ck.PassEdges(respAtoms)
 	n := 0
 	for _, t := range triggers {
@@ -756,4 +767,39 @@ func unpersisted(r *core.Run, f *ssa.Function, typeNames map[string]bool) []unpe
 		}
 	}
 	return out
+}
+
+// helperResponds: every path from the entry of helper h to a return passes a call of one of respCalls (directly or
+// through such a helper again) or an edge on which one of respAtoms holds (atoms are in the caller's vocabulary:
+// the helper's parameters are replaced by the argument terms of the call).
+func helperResponds(r *core.Run, caller *ssa.Function, call ssa.CallInstruction, h *ssa.Function, respCalls []string, respAtoms []guard.Atom, depth int) bool {
+	if depth > 2 || len(h.Blocks) == 0 {
+		return false
+	}
+	cres := r.Resolver(caller)
+	subst := make([]string, len(h.Params))
+	for i, a := range call.Common().Args {
+		if i < len(subst) {
+			subst[i] = normT(cres.Of(a).String())
+		}
+	}
+	hk := &guard.Checker{P: r.P, Fn: h, Res: r.Resolver(h), Subst: subst}
+	respB := blocksCalling(r, h, respCalls...)
+	for _, b := range h.Blocks {
+		for _, ins := range b.Instrs {
+			if c, ok := ins.(ssa.CallInstruction); ok {
+				if g := c.Common().StaticCallee(); g != nil && g != h && r.P.Transparent(g) && helperResponds(r, h, c, g, respCalls, respAtoms, depth+1) {
+					respB[b] = true
+				}
+			}
+		}
+	}
+	respE := hk.PassEdges(respAtoms)
+	if len(respB) == 0 && len(respE) == 0 {
+		return false
+	}
+	if respB[h.Blocks[0]] {
+		return true
+	}
+	return forwardAvoid(h.Blocks[0], respB, respE, isReturnBlock) == nil
 }
